@@ -443,7 +443,7 @@ func runC16(ctx *core.Ctx, pool *par.Pool) {
 	if !ctx.Quick() {
 		cfgs = []pagedrv.Cfg{pagedrv.CfgA, pagedrv.CfgB, pagedrv.CfgC, pagedrv.CfgD, pagedrv.CfgG, pagedrv.CfgH}
 		depth = 7
-		ctx.SetBudget(25 * time.Minute)
+		ctx.SetBudget(15 * time.Minute)
 	}
 	var total xstate.Stats
 	images, distinct, states := 0, 0, 0
